@@ -1404,8 +1404,9 @@ package ucfg
 //@ ensures [restore] deref(opts).activeFields == deref(parentFields)
 
 //@ func reifyMap :: opts, to, from, validators -> err
-//@ props C08 C04
-//@ norte
+//@ props C08 C04 C07
+//@ norte nil assert
+//@ requires rvKind(to) == 21 && (rvNil(to) ==> rvCanSet(to))
 //@ requires opts != nil && from != nil && from.fields != nil
 //@ at-call reifyValue requires opts.opts != nil && opts.opts.activeFields != nil && forall k string :: !has(opts.opts.activeFields.fields, k)
 //@ at-call reifyMergeValue requires opts.opts != nil && opts.opts.activeFields != nil && forall k string :: !has(opts.opts.activeFields.fields, k)
@@ -1624,6 +1625,8 @@ package ucfg
 //@ rvwrites nothing
 //@ ensures [naming !unproved] r == chasedP(v)
 //@ ensures [one_hop] rvKind(v) == 22 && !rvNil(v) && rvKind(rvElem(v)) != 22 ==> r == rvElem(v)
+//@ ensures [pointee_settable] rvKind(v) == 22 && !rvNil(v) ==> rvCanSet(r)
+//@ loop 1 invariant v == entry(v) || rvCanSet(v)
 //@ loop 1 invariant rvKind(entry(v)) == 22 && !rvNil(entry(v)) && rvKind(rvElem(entry(v))) != 22 ==> v == entry(v) || v == rvElem(entry(v))
 //@ ensures [stops] rvKind(r) != 22 || rvNil(r)
 //@ ensures [non_pointer_is_itself] rvKind(v) != 22 ==> r == v
@@ -1633,6 +1636,8 @@ package ucfg
 // consequences of the clauses [non_pointer_is_itself] of the two chase functions, stated for their ghost names
 //@ axiom [chase] forall v reflect.Value :: rvKind(v) != 22 ==> chasedP(v) == v
 //@ axiom [chase] forall t reflect.Type :: rtKind(t) != 22 ==> chasedT(t) == t
+// consequence of the clause [pointee_settable] of chaseValuePointers
+//@ axiom [chase] forall v reflect.Value :: rvKind(v) == 22 && !rvNil(v) ==> rvCanSet(chasedP(v))
 //@ func chaseTypePointers :: t -> r
 //@ props C11 C13
 //@ rvwrites nothing
@@ -1858,8 +1863,10 @@ package ucfg
 //@ ensures [policy_from_tag] err == nil && !skip && info.tagOptions.cfgHandling != cfgDefaultHandling ==> info.options.configValueHandling == info.tagOptions.cfgHandling
 //@ ensures [policy_inherited] err == nil && !skip && info.tagOptions.cfgHandling == cfgDefaultHandling ==> info.options.configValueHandling == old(opts.configValueHandling)
 
+// reifyInto writes the target in place: what it is handed has to be settable behind its pointers, or a non-nil map
 //@ func reifyInto :: opts, to, from -> result
 //@ trusted
+//@ requires rvCanSet(chasedP(to)) || (rvKind(chasedP(to)) == 21 && !rvNil(chasedP(to)))
 //@ modifies *
 //@ rvwrites rvRootOf(to), pointeeStore()
 
@@ -2253,6 +2260,8 @@ package ucfg
 //@ func validateMap :: val, opts -> result
 //@ props C07 C04
 //@ sweep
+//@ norte extern@(Value).MapIndex
+//@ note the key handed to MapIndex comes out of MapKeys of the same map (its type is the key type); the slice of keys does not survive the heap havoc of the calls in the loop, so the key-type precondition of MapIndex is not claimed here
 //@ requires rvKind(chased(val)) == 21
 //@ loop 1 invariant rvKind(val) == 21
 
@@ -2265,6 +2274,8 @@ package ucfg
 //@ func normalizeMapInto :: cfg, opts, from -> result
 //@ props C07
 //@ sweep
+//@ norte extern@(Value).MapIndex
+//@ note the key handed to MapIndex comes out of MapKeys of the same map (its type is the key type); the slice of keys does not survive the heap havoc of the calls in the loop, so the key-type precondition of MapIndex is not claimed here
 //@ requires rvKind(from) == 21
 
 //@ func validateStruct :: val, opts -> result
@@ -2315,7 +2326,7 @@ package ucfg
 // settableCopy: an addressable copy (the pointee of a fresh pointer)
 //@ func settableCopy :: v -> r
 //@ props C07
-//@ sweep
+//@ pure
 //@ rvwrites nothing
 //@ ensures [settable] rvCanSet(r) && rvCanAddr(r) && rvKind(r) == rvKind(v) && rvType(r) == rvType(v) && fresh(rvRootOf(r))
 
@@ -2398,3 +2409,10 @@ package ucfg
 //@ requires deref(opts) != nil
 //@ modifies deref(opts).activeFields
 //@ ensures [restore] deref(opts).activeFields == deref(parentFields)
+
+// Unpack: the target is a non-nil pointer or a non-nil map (anything else is an error, not a panic inside reflect)
+//@ func (*Config).Unpack :: c, to, options -> err
+//@ props C07
+//@ nonil
+//@ uses chase
+//@ modifies *
